@@ -86,6 +86,17 @@ fn main() {
     let seed: u64 = opt(&args, "--seed").and_then(|s| s.parse().ok()).unwrap_or(1);
     let n: usize = opt(&args, "--n").and_then(|s| s.parse().ok()).unwrap_or(100);
     match (args[1].as_str(), args[2].as_str()) {
+        ("replay", "c03") => {
+            // streamed: the thorough tier replays several hundred thousand behaviours
+            let f = std::fs::File::open(&args[3]).unwrap_or_else(|e| { eprintln!("cannot open {}: {e}", args[3]); std::process::exit(2) });
+            let mut w = BufWriter::new(std::fs::File::create(&args[4]).expect("create out"));
+            for line in std::io::BufReader::new(f).lines() {
+                let line = line.unwrap();
+                if line.trim().is_empty() { continue; }
+                let case: J = serde_json::from_str(&line).expect("case json");
+                writeln!(w, "{}", serde_json::to_string(&c03::replay(&case)).unwrap()).unwrap();
+            }
+        }
         ("replay", prop) => {
             let cases = read_cases(&args[3]);
             let ls = lifts(&args);
